@@ -190,6 +190,28 @@ def run_codecs(ev, state, coords, job):
             bad(f're-assembling split_axis(t, {axis}, keep_dims={keep}) != t: {msg}')
         except Exception as e:  # pylint: disable=broad-except
           bad(f'split_axis raised {type(e).__name__}: {str(e)[:160]}')
+    # 5b. split_axis with a negative axis on leaves of different rank
+    het = {'p': arrs[0][0], 'q': arrs[0], 'r': np.stack([arrs[0], arrs[0] * 2])}
+    for axis in (-1, -2):
+      try:
+        parts = pytree_utils.split_axis(het, axis, keep_dims=False)
+        want_n = arrs[0].shape[axis]
+        if len(parts) != want_n:
+          bad(f'split_axis(axis={axis}) on mixed-rank leaves gave {len(parts)} parts')
+        for i, part in enumerate(parts):
+          ref = {k: np.take(v, i, axis=axis) for k, v in het.items()}
+          ok, msg = tree_bits_equal(ref, part)
+          if not ok:
+            bad(f'split_axis(axis={axis}) part {i} on mixed-rank leaves is not the '
+                f'slice along that axis of every leaf: {msg}')
+            break
+        back = jax.tree_util.tree_map(lambda *xs: jnp.stack(xs, axis), *parts)
+        ok, msg = tree_bits_equal(het, back)
+        if not ok:
+          bad(f're-stacking split_axis(t, {axis}) on mixed-rank leaves != t: {msg}')
+      except Exception as e:  # pylint: disable=broad-except
+        bad(f'split_axis(axis={axis}) on mixed-rank leaves raised {type(e).__name__}: '
+            f'{str(e)[:160]}')
   # 6. as_dict round trip of the state object
   try:
     if dataclasses.is_dataclass(state):
